@@ -75,6 +75,45 @@ class Function:
             for s in self.bmap[x].succs: st.append(s.id)
         return seen
 
+    def enum_of_value(self, o, depth=0):
+        """if operand o is (a cast of) a load of a struct field whose declared type is an enum, return the enum's
+        {name: value}; used to recognise exhaustive switches"""
+        if o["k"] != "inst" or depth > 4: return None
+        i = self.imap[o["v"]]
+        if i.op in ("zext", "sext", "trunc"): return self.enum_of_value(i.ops[0], depth + 1)
+        if i.op != "load": return None
+        a = i.ops[0]
+        if a["k"] != "inst": return None
+        g = self.imap[a["v"]]
+        if g.op != "getelementptr" or "field" not in g.d: return None
+        sname = g["field"]["struct"]
+        di = self.mod.ditypes.get(sname.split(".", 1)[1] if "." in sname else sname)
+        if di is None: return None
+        st = self.mod.structs.get(sname)
+        if st is None: return None
+        foff = st["fields"][g["field"]["field"]]["off"]
+        for m in di["members"]:
+            if m["off"] == foff:
+                t = m["type"].replace("const ", "").strip()
+                en = self.mod.enums.get(self.mod.typedefs.get(t, t)) or self.mod.enums.get(t)
+                return en
+        return None
+    def enum_default_edges(self):
+        """(pred, succ) default edges of switches that name every enumerator of the switched enum-typed field:
+        infeasible under the type's invariant"""
+        if getattr(self, "_ede", None) is not None: return self._ede
+        out = set()
+        for b in self.blocks:
+            t = b.term
+            if t.op != "switch": continue
+            en = self.enum_of_value(t.ops[0])
+            if not en: continue
+            cases = {int(c["v"]) for c in t["cases"]}
+            if {int(v) for v in en.values()} <= cases and t["default"] not in {c["b"] for c in t["cases"]}:
+                out.add((b.id, t["default"]))
+        self._ede = out
+        return out
+
     # --- dominators (iterative) ---
     def dom(self):
         if self._dom is not None: return self._dom
